@@ -268,6 +268,24 @@ def r3_mode_reset(ctx):
               "load_parameters does not reset the population variables to the prior mode after storing the parameters: a reloaded model's velocities / mixing matrix are stale or unset")
 
 
+def r3b_model_side_population_init(ctx):
+    """A model that was initialised (not fitted) is self-consistent only if its population variables are the prior modes of the parameters it
+    reports: in the `leaspy.models` package every `put_population_latent_variables` uses the literal PRIOR_MODE."""
+    ctx.rule("C12.R3b", "inside the models package the population variables are only ever put at the prior mode", 2)
+    n = 0
+    for f in ctx.ix.iter_funcs():
+        if not f.mod.startswith("leaspy.models"):
+            continue
+        for c in ast.walk(f.node):
+            if isinstance(c, ast.Call) and isinstance(c.func, ast.Attribute) and c.func.attr == "put_population_latent_variables":
+                n += 1
+                a0 = c.args[0] if c.args else (c.keywords[0].value if c.keywords else None)
+                ok = a0 is not None and U(a0) in ("LatentVariableInitType.PRIOR_MODE", "'mode'")
+                ctx.check(ok, "C12.R3b", f, c, "population variables put at the prior mode",
+                          f"population variables are initialised with `{U(a0) if a0 is not None else '?'}` (not the literal prior mode): the model's derived quantities (velocities, mixing matrix, "
+                          "trajectories) disagree with the parameters it reports and saves")
+
+
 def r4_codec(ctx):
     ctx.rule("C12.R4", "parameters written with tensor_to_list, read with val_to_tensor(value, declared shape of the same variable)", 2)
     ix = ctx.ix
@@ -321,6 +339,7 @@ def rules(ctx):
     r1_name(ctx)
     r2_hyperparameters(ctx)
     r3_mode_reset(ctx)
+    r3b_model_side_population_init(ctx)
     r4_codec(ctx)
     r5_rank(ctx)
     ctx.trust("json round trip of Python lists / numbers; tensor.tolist(); tensor.view")
